@@ -221,7 +221,7 @@ def _r17_3(prog: Program, res: Result) -> None:
     fn = prog.func("fixes", "_negate_condition")
     p = fn.posparams[0]
     seen = {"And": False, "Or": False, "Not": False, "default": False}
-    for s in fn.node.body:
+    for s in walk_own(fn.node):       # an if chain written with early returns or as nesting
         if isinstance(s, ast.If):
             t = norm(s.test)
             ret = next((r for r in s.body if isinstance(r, ast.Return)), None)
@@ -248,7 +248,8 @@ def _r17_3(prog: Program, res: Result) -> None:
                 seen["Not"] = True
                 ok = norm(v) == f"{p}.operand"
                 res.decide(ok, "R17.3", fn.loc(ret), fn.fq, f"Not: {norm(ret)}", "not (not a) = a" if ok else "double negation does not return the operand")
-    last = fn.node.body[-1]
+    from ..model import last_return
+    last = last_return(fn.node)
     if isinstance(last, ast.Return):
         seen["default"] = True
         v = last.value
@@ -350,6 +351,9 @@ def _extract_claims(prog: Program, fn: Func) -> Tuple[List[Claim], Dict[str, obj
 
 
 def _ctx_of_test(prog, fn, test) -> Optional[str]:
+    if isinstance(test, ast.UnaryOp) and isinstance(test.op, ast.Not):      # `if not isinstance(node.op, ast.And)`: the other context
+        inner = _ctx_of_test(prog, fn, test.operand)
+        return {"Or": "And", "And": "Or"}.get(inner)
     if isinstance(test, ast.Call) and isinstance(test.func, ast.Name) and test.func.id == "isinstance" and len(test.args) == 2 \
             and norm(test.args[0]).endswith(".op"):
         return ast_class_name(prog, fn, test.args[1])
@@ -553,6 +557,9 @@ def _r17_4(prog: Program, res: Result, tier: str) -> int:
             for sub in n.body:
                 if isinstance(sub, ast.If):
                     ctx = _ctx_of_test(prog, fn, sub.test)
+                    if ctx is None:
+                        res.undecided("R17.4", fn.loc(sub), fn.fq, "a op not a", f"context test `{short(sub.test, 50)}` not recognised")
+                        continue
                     for branch, bctx in ((sub.body, ctx), (sub.orelse, {"Or": "And", "And": "Or"}.get(ctx))):
                         for y in walk_body(branch):
                             if isinstance(y, ast.Yield) and isinstance(y.value, ast.Tuple):
